@@ -536,28 +536,35 @@ fn verif_point(point: &str) -> Result<()> {
 /// to the git repository checkout path.
 pub fn fetch(fetch_id: u64, name: &str, pinned: &Pinned) -> Result<PathBuf> {
     let path = commit_path(name, &pinned.source.repo, &pinned.commit_hash);
+    // The commit is checked out into a staging directory next to the temporary repo and only
+    // moved to `path` (atomically, by `rename`) once it is complete. `path` therefore either does
+    // not exist or holds the whole commit, even if this process dies or a step fails half-way:
+    // later builds only test whether `path` exists.
+    let mut staging = tmp_git_repo_dir(fetch_id, name, &pinned.source.repo).into_os_string();
+    staging.push(".checkout");
+    let staging = PathBuf::from(staging);
     #[cfg(fuellabs_sway_verif)]
     verif_point("start")?;
+    if staging.exists() {
+        let _ = fs::remove_dir_all(&staging);
+    }
+    // Remove the staging directory on any early return (after a successful rename it is gone).
+    let _staging_guard = scopeguard::guard(&staging, |dir| {
+        let _ = fs::remove_dir_all(dir);
+    });
     // Checkout the pinned hash to the path.
     with_tmp_git_repo(fetch_id, name, &pinned.source, |repo| {
         // Change HEAD to point to the pinned commit.
         let id = git2::Oid::from_str(&pinned.commit_hash)?;
         repo.set_head_detached(id)?;
 
-        // If the directory exists, remove it. Note that we already check for an existing,
-        // cached checkout directory for re-use prior to reaching the `fetch` function.
-        #[cfg(fuellabs_sway_verif)]
-        verif_point("remove")?;
-        if path.exists() {
-            let _ = fs::remove_dir_all(&path);
-        }
         #[cfg(fuellabs_sway_verif)]
         verif_point("create_dir")?;
-        fs::create_dir_all(&path)?;
+        fs::create_dir_all(&staging)?;
 
-        // Checkout HEAD to the target directory.
+        // Checkout HEAD to the staging directory.
         let mut checkout = git2::build::CheckoutBuilder::new();
-        checkout.force().target_dir(&path);
+        checkout.force().target_dir(&staging);
         #[cfg(fuellabs_sway_verif)]
         checkout.progress(|_, done, _| {
             let _ = verif_point(&format!("file{done}"));
@@ -582,9 +589,24 @@ pub fn fetch(fetch_id: u64, name: &str, pinned: &Pinned) -> Result<PathBuf> {
         #[cfg(fuellabs_sway_verif)]
         verif_point("index")?;
         fs::write(
-            path.join(".forc_index"),
+            staging.join(".forc_index"),
             serde_json::to_string(&source_index)?,
         )?;
+
+        // If the directory exists, remove it. Note that we already check for an existing,
+        // cached checkout directory for re-use prior to reaching the `fetch` function.
+        #[cfg(fuellabs_sway_verif)]
+        verif_point("remove")?;
+        if path.exists() {
+            let _ = fs::remove_dir_all(&path);
+        }
+        if let Some(parent) = path.parent() {
+            fs::create_dir_all(parent)?;
+        }
+        // Publish the complete checkout.
+        #[cfg(fuellabs_sway_verif)]
+        verif_point("rename")?;
+        fs::rename(&staging, &path)?;
         #[cfg(fuellabs_sway_verif)]
         verif_point("done")?;
         Ok(())
